@@ -95,7 +95,15 @@ func (w *world) params(weights []uint64, tau, cert uint64) bftsim.Params {
 func (w *world) newBlock(parent *blk, gen int, mhg uint32, byz bool) *blk {
 	w.sim.Load(parent.dump)
 	h := &bftsim.Hdr{H: parent.h + 1, Gen: w.addrs[gen], MHG: mhg, MHP: parent.sPrev}
-	if w.sim.Contradicting(h) {
+	flagged := w.sim.Contradicting(h)
+	// The safety argument rests on this filter: honest validators refuse headers that contradict the generator's latest header on
+	// the chain. A filter that lets a contradicting header through lets one Byzantine validator vote twice (added after seeded change
+	// C01-o, which narrowed one LIP-0014 rule and needed a repeated two-header pattern to end in a visible conflict).
+	if want := parent.model.Contradicting(w.addrs[gen], h.H, h.MHG, h.MHP); want != flagged {
+		w.t.Fatalf("header h=%d of v%d (maxHeightGenerated=%d maxHeightPrevoted=%d) on block #%d: the node says contradicting=%v, LIP-0014 against the generator's latest header in the window says %v\n%s",
+			h.H, gen, mhg, h.MHP, parent.id, flagged, want, strings.Join(w.hist, "\n"))
+	}
+	if flagged {
 		return nil
 	}
 	var ch *bftsim.Params
